@@ -248,6 +248,7 @@ func checkC19(cx *Ctx, r *Report) {
 		}
 		r.Check(nOwn == 0, "R-VFG", "IssuerFromHost:no-headers", w.FnPos(ih), "passes a configuration without forwarding headers", "IssuerFromHost configures forwarding headers: the issuer can then be taken from a client-supplied header")
 	}
+	cx.checkIssuerSchemeFlag(r)
 	// scheme chosen by allowInsecure alone; leading slash rule
 	if di := w.Func("provider.dynamicIssuer"); di != nil {
 		aps, ok := fx.atomPaths(di, 256)
@@ -289,4 +290,24 @@ func checkC19(cx *Ctx, r *Report) {
 		r.Fail("R-GUARD", "dynamicIssuer", "", "anchor not found")
 	}
 	r.Min("R-VFG", 8)
+}
+
+// checkIssuerSchemeFlag: the flag that selects the scheme of a derived issuer is the configured one, unchanged, at
+// every call of dynamicIssuer: the issuer of a host then does not vary with anything else a request carries
+// (TLS state, headers), so the entityID served to one request is the Issuer sent in reply to another.
+func (cx *Ctx) checkIssuerSchemeFlag(r *Report) {
+	w := cx.W
+	fo := w.Func("provider.issuerFromForwardedOrHost")
+	if fo == nil {
+		r.Fail("R-VFG", "derived-issuer:scheme-flag", "", "anchor not found")
+		return
+	}
+	vf := cx.vflow("provider.issuerFromForwardedOrHost")
+	ls, sites := vf.CallArgSources(matchFnKey(w, "provider.dynamicIssuer"), 2)
+	if len(sites) == 0 {
+		r.Fail("R-VFG", "derived-issuer:scheme-flag", w.FnPos(fo), "dynamicIssuer is no longer called from the issuer derivation")
+		return
+	}
+	flag := "param:provider.issuerFromForwardedOrHost$1/#0"
+	r.checkSources("R-VFG", "derived-issuer:scheme-flag", w.InstrPos(sites[0]), ls, []string{flag}, []string{flag}, true)
 }
